@@ -38,7 +38,22 @@ def build_harness(src, out):
     r = subprocess.run(["gcc"] + SAN + [hobj, os.path.join(out, "hashmap.o"), os.path.join(out, "glue.o"), "-o", exe],
                        stdout=subprocess.PIPE, stderr=subprocess.STDOUT)
     if r.returncode:
-        raise BuildError("harness does not link: " + r.stdout.decode(errors="replace")[-2000:])
+        # hashmap.c may have started to use helpers that live in other files of the tree (an arena allocator, say):
+        # link the rest of the compiler too, as weak definitions (glue.c keeps error()/format()) and with unused
+        # sections discarded so that what only main.c defines is not needed
+        first_error = r.stdout.decode(errors="replace")[-1500:]
+        extra = []
+        for f in sorted(os.listdir(src)):
+            if not f.endswith(".c") or f in ("main.c", "hashmap.c"):
+                continue
+            o = os.path.join(out, "x_" + f[:-2] + ".o")
+            c = subprocess.run(base + ["-ffunction-sections", "-fdata-sections", "-c", os.path.join(src, f), "-o", o], stdout=subprocess.PIPE, stderr=subprocess.STDOUT)
+            if c.returncode == 0 and subprocess.run(["objcopy", "--weaken", o]).returncode == 0:
+                extra.append(o)
+        r = subprocess.run(["gcc"] + SAN + ["-Wl,--gc-sections", hobj, os.path.join(out, "hashmap.o"), os.path.join(out, "glue.o")] + extra + ["-o", exe],
+                           stdout=subprocess.PIPE, stderr=subprocess.STDOUT)
+        if r.returncode:
+            raise BuildError("harness does not link: " + first_error)
     return exe, internals
 
 
@@ -789,9 +804,9 @@ def main(argv):
         l1_runs, l1_big, l2_total, l2_secs, det = 480000, 320, 40000, 25, 200
     else:
         l1_runs, l1_big, l2_total, l2_secs, det = 12000000, 16000, 3000000, 420, 1000
-    d1, s1 = level1(exe, sdir, master, l1_runs, 400, 40, 4000 if tier == "quick" else 25000, rep, stats, None)
+    d1, s1 = level1(exe, sdir, master, l1_runs, 400, 40, 2000 if tier == "quick" else 10000, rep, stats, None)
     # long histories over large key universes: growth through several doublings with tombstones alive
-    d1b, _ = level1(exe, sdir, master ^ 0xB16, l1_big, 6000, 1024, 20 if tier == "quick" else 100, rep, stats, None)
+    d1b, _ = level1(exe, sdir, master ^ 0xB16, l1_big, 6000, 1024, 10 if tier == "quick" else 100, rep, stats, None)
     l1_determinism(exe, master, det, rep, stats)
     d2, s2 = level2(cc, sdir, master, l2_total, fam, 40, rep, stats, l2_secs)
     d3, s3 = level34(cc, sdir, master, fam, rep, stats, 12 if tier == "quick" else 240)
